@@ -6,6 +6,8 @@ CONSTANTS
   CLOSESIGNAL = TRUE
   Closers = {"X", "Y"}
   RECHECK = FALSE
+  SENDER = FALSE
+  RELOCK = FALSE
   GEN = FALSE
 INVARIANTS C13_NoCrash C13_OneTeardown C13_NoDeliveryAfterClose C13_ClosedReported
 PROPERTIES C13_CloseReturns C13_RecvReturnsAfterCancel
